@@ -105,6 +105,8 @@ extern "C" void gr_verif_event(const char *op, const void *segp, const void *a, 
     else if (o == "passend") { g_events += "P" + snapshot((const Segment *)segp) + ";"; return; }
     else if (o == "linebreak") snprintf(t, sizeof t, "lb%d;", slot_id(a));
     else if (o == "setends") snprintf(t, sizeof t, "se%d,%d;", slot_id(a), slot_id(b));
+    else if (o == "addlineend") snprintf(t, sizeof t, "ae%d,%d,%ld;", slot_id(a), slot_id(b), x);
+    else if (o == "dellineend") snprintf(t, sizeof t, "de%d;", slot_id(a));
     g_events += t;
 }
 
@@ -535,7 +537,7 @@ int main(int argc, char **argv) {
                 jev += ";" + ptr_snapshot(seg, all_slots = lines[0].s);
                 // the direction word and what justify's control depends on: D<m_dir>,<font dir>,<bidi pass setting present>,<justification passes present>
                 jev += "D" + std::to_string((int)gs0->dir()) + "," + std::to_string((int)gs0->silf()->dir()) + "," + std::to_string(gs0->silf()->bidiPass() != gs0->silf()->numPasses() ? 1 : 0)
-                     + "," + std::to_string(gs0->silf()->justificationPass() != gs0->silf()->positionPass() ? 1 : 0) + ";";
+                     + "," + std::to_string(gs0->silf()->justificationPass() != gs0->silf()->positionPass() ? 1 : 0) + "," + std::to_string(gs0->silf()->flags() & 1) + ";";
             }
             for (size_t k = 10; k < f.size(); k++) {
                 const std::string &op = f[k];
